@@ -67,6 +67,15 @@ def wstring (ver : Ver) (e : Endian) (us : List Val) (rel : Nat) : Bytes :=
   let b := elements (fun v r => uint16 ver e v.unit r) us (rel + n.length)
   n ++ b ++ uint16 ver e 0 (rel + n.length + b.length)
 
+/-- rule (26) `{ O.disc : NOPT_FMEMBER } { O.selected_member : FMEMBER }?`; `g id v` = the member `id` with value `v` -/
+def funion (ver : Ver) (e : Endian) (disc : Prim) (g : Nat → Val → Nat → Bytes) (fs : List Val) (rel : Nat) : Bytes :=
+  match fs with
+  | [.num x, .num id, v] =>
+    let b := primitive ver e disc x rel
+    b ++ g id v (rel + b.length)
+  | [.num x] => primitive ver e disc x rel
+  | _ => []
+
 /-- `{ DHEADER(O) : UInt32 }` followed by the delimited object: DHEADER = size of what follows it -/
 def delimited (ver : Ver) (e : Endian) (body : Nat → Bytes) (rel : Nat) : Bytes :=
   let p := alignPad ver 4 rel
@@ -80,6 +89,7 @@ def isPrimitive : Ty → Bool
 /-- does the serialized member start with a UInt32 that is the number of bytes that follow it (a DHEADER)? -/
 def startsWithDheader (ver : Ver) : Ty → Bool
   | .struct .appendable _ => ver == .v2
+  | .union true _ _ => ver == .v2
   | .struct .mutable _ => ver == .v2
   | .seq el => ver == .v2 && !isPrimitive el
   | .arr el _ => ver == .v2 && !isPrimitive el
@@ -107,6 +117,7 @@ def lcStd (ver : Ver) (t : Ty) (size : Nat) : Nat :=
 def lcDust (t : Ty) (size : Nat) : Nat :=
   match t with
   | .struct .appendable _ => 5
+  | .union true _ _ => 5
   | .struct .mutable _ => 5
   | .seq _ => 5
   | _ => if size = 1 then 0 else if size = 2 then 1 else if size = 4 then 2 else if size = 8 then 3 else 4
@@ -246,13 +257,10 @@ mutual
       | .v1 => plist1 d e (order d (present d ver e ms fs)) rel
       | .v2 => delimited ver e (plist2 d e (order d (present d ver e ms fs))) rel
     -- (26) FUNION = `{ O.disc : NOPT_FMEMBER } { O.selected_member : FMEMBER }?`
-    | .union disc bs, .struct fs, rel =>
-      match fs with
-      | [.num x, .num id, v] =>
-        let b := primitive ver e disc x rel
-        b ++ branch d ver e bs id v (rel + b.length)
-      | [.num x] => primitive ver e disc x rel
-      | _ => []
+    --      (29) / (30) over it for an appendable union
+    | .union app disc bs, .struct fs, rel =>
+      if app && ver == .v2 then delimited ver e (funion ver e disc (branch d ver e bs) fs) rel
+      else funion ver e disc (branch d ver e bs) fs rel
     | _, _, _ => []
   /-- the selected member of a union: the branch with the member id the value names -/
   def branch (d : Dialect) (ver : Ver) (e : Endian) : Bs → Nat → Val → Nat → Bytes
